@@ -48,7 +48,35 @@ class FactEngine(object):
                 r = _root_decl(lv)
                 if r:
                     written.add(r)
+        for x in walk(self.fn):
+            if x.get('kind') == 'ParmVarDecl':
+                decls.setdefault(x['id'], x)
         self.never_written = set(decls) - written
+        const_method = bool(re.search(r'\)\s*const\b', qtype(self.fn)))
+
+        def stable(init):
+            """Every variable the initialiser reads keeps its value for the rest of the function."""
+            for y in walk(init):
+                k = y.get('kind')
+                if k == 'DeclRefExpr':
+                    rd = y.get('referencedDecl') or {}
+                    if rd.get('kind') in ('VarDecl', 'ParmVarDecl'):
+                        i = rd.get('id')
+                        if i in decls:
+                            if i not in self.never_written:
+                                return False
+                        else:
+                            d = self.unit.by_id.get(i)
+                            t = qtype(d) if d is not None else qtype(y)
+                            if not (t.startswith('const ') or (d is not None and d.get('constexpr'))):
+                                return False
+                elif k == 'CXXThisExpr' and not const_method:
+                    return False
+                elif k == 'UnaryOperator' and y.get('opcode') == '*':
+                    return False
+                elif k == 'ArraySubscriptExpr':
+                    return False
+            return True
         subst = {}
         for i, d in decls.items():
             if i in written:
@@ -61,7 +89,7 @@ class FactEngine(object):
             if not ks:
                 continue
             init = ks[-1]
-            if not _pure(init):
+            if not _pure(init) or not stable(init) or d.get('kind') == 'ParmVarDecl':
                 continue
             # only scalar / pointer / reference locals
             dt = dtype(d)
